@@ -186,10 +186,18 @@ impl Idle {
                             radio::Response::TxDone(ms) => {
                                 data_rxwindow1_timeout::<R, N>(frame, rx_windows, mac, radio, ms)
                             }
-                            _ => (State::Idle(self), Err(Error::UnexpectedRadioResponse.into())),
+                            _ => {
+                                // the frame was handed to the radio: never reuse its counter
+                                let _ = mac.rx2_complete();
+                                (State::Idle(self), Err(Error::UnexpectedRadioResponse.into()))
+                            }
                         }
                     }
-                    Err(e) => (State::Idle(self), Err(super::Error::Radio(e))),
+                    Err(e) => {
+                        // the frame was handed to the radio: never reuse its counter
+                        let _ = mac.rx2_complete();
+                        (State::Idle(self), Err(super::Error::Radio(e)))
+                    }
                 }
             }
         }
